@@ -400,6 +400,39 @@ def obligations(ctx, pid):
     if not idn:
         obs.append(Ob("E0.identity-int", "E0.identity-int", f"{len(scope_funcs)} functions", "ok",
                       "no identity comparison with an integer-valued constant"))
+    # ---- itertools.groupby over a sequence that is not sorted by the grouping key: it merges *adjacent* equal keys only, so equal
+    #      keys that are apart form separate groups (collected into a dict, the later group silently replaces the earlier one)
+    gb, ngb = [], 0
+    gb_scope = {f.qualname for f in P.functions.values() if f.module.name in {P.functions[x].module.name for x in scope_funcs if x in P.functions}}
+    for q in sorted(scope_funcs | gb_scope):          # (helpers of the same modules included: a new helper is not yet in anyone's scope)
+        fi = P.functions.get(q)
+        if fi is None:
+            continue
+        for n in ast.walk(fi.node):
+            if isinstance(n, ast.Call) and (dotted(n.func) or "").split(".")[-1] == "groupby" and n.args:
+                ngb += 1
+                key = n.args[1] if len(n.args) > 1 else next((k.value for k in n.keywords if k.arg == "key"), None)
+                src = n.args[0]
+                srt = src if isinstance(src, ast.Call) and (dotted(src.func) or "") == "sorted" else None
+                skey = next((k.value for k in srt.keywords if k.arg == "key"), None) if srt is not None else None
+                def keyterm(k_):
+                    try:
+                        return T.canonical(T.Lower(T.Scope(P, fi.module, fi.cls, fi), set()).e(k_))
+                    except Exception:
+                        return ast.dump(k_)
+                same = srt is not None and ((key is None and skey is None) or
+                                            (key is not None and skey is not None and
+                                             (ast.dump(key) == ast.dump(skey) or keyterm(key) == keyterm(skey))))
+                if not same:
+                    gb.append((fi, n))
+    for fi, n in gb:
+        obs.append(Ob(f"E0.groupby:{fi.qualname}", "E0.groupby-unsorted", f"{fi.file}:{n.lineno} {fi.qualname}", "violation",
+                      f"`{ast.unparse(n)[:90]}` groups a sequence that is not `sorted(..., key=<the same key>)`: itertools.groupby merges "
+                      f"adjacent equal keys only, so items with equal keys that are apart end up in separate groups (and in a dict the "
+                      f"later group replaces the earlier one)", key=f"E0.groupby:{fi.qualname}"))
+    if not gb:
+        obs.append(Ob("E0.groupby-unsorted", "E0.groupby-unsorted", f"{len(scope_funcs)} functions, {ngb} groupby calls", "ok",
+                      "every itertools.groupby call groups a sequence sorted by the same key"))
     # ---- constants used as axioms
     pm = P.modules.get("puan")
     if pm is not None:
